@@ -275,13 +275,31 @@ def check(c):
     rets = _returns(c, cs)
     r_false = [r for r in rets if norm(r.value) == 'False']
     r_true = [r for r in rets if norm(r.value) == 'True']
-    r_any = [r for r in rets if r not in r_false and r not in r_true]
-    c.floor('C43.can-stop', 'return True (NOW-NOW)', len(r_true), 1)
-    c.exactly('C43.can-stop', 'computed return', len(r_any), 1)
+    # (canonical spelling: `return not any(...)` is seen as
+    #  `if any(...): return False` + `return True`)
+    other = [r for r in rets if r not in r_false and r not in r_true]
+    c.ob('C43.can-stop', f'{cs.fq} :: every return is True or False',
+         not other, c.where(cs.node, cs), str([norm(r.value) for r in other]))
     cfgs = c.cfg(cs)
-    for r in r_true:
-        c.guard('C43.can-stop', r, [
-            'stop_mode == StopMode.REQUEST_NOW_NOW'], cs)
+    anys = [n for n in c.idx.walk(cs.node) if c.any_condition(n) is not None
+            and norm(c.any_condition(n)[1]) == 'self.get_tasks()']
+    c.exactly('C43.can-stop', 'any(... for itask in self.get_tasks())',
+              len(anys), 1)
+
+    def blocked_by_jobs(r):
+        return any(fa[0] == 'atom' and fa[2] and any(fa[1] is a for a in anys)
+                   for fa in c.facts(r, expand=False))
+
+    def free_of_jobs(r):
+        return any(fa[0] == 'atom' and not fa[2] and any(
+            fa[1] is a for a in anys) for fa in c.facts(r, expand=False))
+    now_now = [r for r in r_true if c.holds(
+        r, 'stop_mode == StopMode.REQUEST_NOW_NOW')]
+    final = [r for r in r_true if r not in now_now]
+    c.floor('C43.can-stop', 'return True (NOW-NOW)', len(now_now), 1)
+    c.exactly('C43.can-stop', 'return True when nothing blocks', len(final),
+              1)
+    for r in now_now:
         c.guard_only('C43.can-stop', r, [
             'stop_mode == StopMode.REQUEST_NOW_NOW',
             '!(stop_mode is None)'], cs,
@@ -289,9 +307,12 @@ def check(c):
     none_f = [r for r in r_false if c.holds(r, 'stop_mode is None')]
     c.floor('C43.can-stop', 'return False when no stop mode', len(none_f), 1)
     for r in r_false:
-        c.guard('C43.can-stop', r, [AnyOf(
-            'stop_mode is None', 'self.task_events_mgr._event_timers')], cs)
-    for r in r_any:
+        ok = c.holds(r, AnyOf('stop_mode is None',
+                              'self.task_events_mgr._event_timers')) or \
+            blocked_by_jobs(r)
+        c.ob('C43.can-stop', c.key(r, cs) + ' only for: no mode, pending '
+             'event timers, or a blocking active task', ok, c.where(r, cs), '')
+    for r in final:
         for nf_ in none_f:
             c.ob('C43.can-stop', c.key(r, cs) + ' after the no-mode test',
                  cfgs.dominated_by(r, lambda s, b=c.idx.parent[id(nf_)]:
@@ -299,15 +320,10 @@ def check(c):
         c.guard('C43.can-stop', r, [
             '!self.task_events_mgr._event_timers'], cs,
             what='pending event handlers block the stop;')
-        v = r.value
-        ok = isinstance(v, ast.UnaryOp) and isinstance(v.op, ast.Not) and \
-            c.any_condition(v.operand) is not None and norm(
-                c.any_condition(v.operand)[1]) == 'self.get_tasks()'
-        c.ob('C43.can-stop', c.key(r, cs) + ' is `not any(... for itask in '
-             'self.get_tasks())`', ok, c.where(r, cs), '')
-        if not ok:
-            continue
-        cond = c.any_condition(v.operand)[0]
+        c.ob('C43.can-stop', c.key(r, cs) + ' only when no active task '
+             'blocks', free_of_jobs(r), c.where(r, cs), '')
+    for a in anys:
+        cond = c.any_condition(a)[0]
         # the modes that wait for jobs
         modes = None
         for n in ast.walk(cond):
@@ -325,7 +341,7 @@ def check(c):
                  'jobs and stop --now must not'))
         ok = c.case_covered(cond, [
             'stop_mode in _', StatusCovers('submitted', 'running'),
-            '!_.state.kill_failed'], r)
+            '!_.state.kill_failed'], a)
         c.ob('C43.can-stop', f'{cs.fq} :: an active, not kill-failed task '
              'blocks a clean/kill stop', ok, c.where(cond, cs),
              norm(cond)[:160])
